@@ -316,7 +316,17 @@ def _run(case, desper, fx, res, tmp):
     want_types += [(resolve(p['type']).priority, resolve(p['type']))
                    for p in listed]
     order = [t for _, t in sorted(want_types, key=lambda x: x[0])]
-    if [type(p) for p in got_procs] != order:
+    got_types = [type(p) for p in got_procs]
+    if case['from_file'] and got_types != order:
+        # the two default processors come before the listed ones; their
+        # mutual order is not stated
+        swapped = [(0, desper.CoroutineProcessor),
+                   (0, desper.OnUpdateProcessor)] + want_types[2:]
+        alt = [t for _, t in sorted(swapped, key=lambda x: x[0])]
+        if got_types == alt:
+            res.stats['dontcare_default_processor_order'] += 1
+            order = alt
+    if got_types != order:
         fail('processors', 'processors of the loaded world',
              [t.__name__ for t in order],
              [type(p).__name__ for p in got_procs])
@@ -326,15 +336,53 @@ def _run(case, desper, fx, res, tmp):
         if not check_call(p, spec, f'processor {spec["type"]}'):
             return
     # ---- entities
-    auto = 0
+    # entities without an id get automatic identifiers; WHICH identifier is
+    # not stated, so they are matched to the entities of the world by content
+    explicit = {repr(e['id']) for e in desc.get('entities', []) if 'id' in e}
+    unclaimed = [e for e in world.entities if repr(e) not in explicit]
+
+    def matches(obj, spec):
+        want_args = [expect(a) for a in spec.get('args', [])]
+        want_kwargs = {k: expect(v) for k, v in spec.get('kwargs', {}).items()}
+        if len(obj.args) != len(want_args) \
+                or set(obj.kwargs) != set(want_kwargs):
+            return False
+        pairs = list(zip(obj.args, want_args)) + [
+            (obj.kwargs[k], want_kwargs[k]) for k in want_kwargs]
+        return all(g is w if how == 'is' else same_json(g, w)
+                   for g, (how, w) in pairs)
+
+    def claim(comps):
+        names = sorted(resolve(c['type']).__name__ for c in comps)
+        for cand in unclaimed:
+            got = world.get_components(cand)
+            if sorted(type(c).__name__ for c in got) != names:
+                continue
+            if all(matches(world.get_component(cand, resolve(s['type'])), s)
+                   for s in comps):
+                unclaimed.remove(cand)
+                return cand
+        return None
+
     want_entities = []
     for ent in desc.get('entities', []):
+        comps = ent.get('components', [])
         if 'id' in ent:
             eid = ent['id']
+        elif not comps:
+            continue            # nothing to find: the entity does not exist
         else:
-            auto += 1
-            eid = auto
-        comps = ent.get('components', [])
+            eid = claim(comps)
+            if eid is None:
+                fail('entity-components', 'no entity of the loaded world '
+                     'carries exactly the components (types and arguments) '
+                     'of an id-less entity of the description',
+                     [c['type'] for c in comps],
+                     {repr(e): [type(c).__name__
+                                for c in world.get_components(e)]
+                      for e in unclaimed})
+                return
+            res.stats['idless_entities_matched'] += 1
         if comps:
             want_entities.append(eid)
         got = world.get_components(eid)
@@ -406,20 +454,52 @@ def _run(case, desper, fx, res, tmp):
         res.stats['reloads_checked'] += 1
         specs = listed + [c for ent in desc.get('entities', [])
                           for c in ent.get('components', [])]
-        again = [e for e in fx.LOG[mark:] if e[0] == 'new']
+        again = [e[1] for e in fx.LOG[mark:] if e[0] == 'new']
         if len(again) != len(specs):
             fail('extra-construction', 'objects constructed by the second '
                  'load', len(specs), len(again))
             return
-        for entry, old, spec in zip(again, first_objects, specs):
-            obj = entry[1]
-            if type(obj) is not resolve(spec['type']) or not check_call(
-                    obj, spec, 'second load: ' + type(obj).__name__):
-                if not res.divs:
-                    fail('constructor-arguments', 'second load built objects '
-                         'in another order', spec['type'],
-                         type(obj).__name__)
-                return
+
+        def assign(objects):
+            """spec index -> object, by type and arguments (the order in
+            which objects are constructed is not stated)."""
+            left = list(objects)
+            out = {}
+            for i, spec in enumerate(specs):
+                for obj in left:
+                    if type(obj) is resolve(spec['type']) \
+                            and matches(obj, spec):
+                        out[i] = obj
+                        left.remove(obj)
+                        break
+            return out
+
+        # first-load objects were built against the resources of that time:
+        # only the new ones can be compared with the current substitution
+        second = assign(again)
+        if len(second) != len(specs):
+            missing = [specs[i]['type'] for i in range(len(specs))
+                       if i not in second]
+            fail('constructor-arguments', 'second load of the same handle: '
+                 'objects not built from the listed arguments (after '
+                 'substitution against the CURRENT resources)', missing,
+                 [[type(o).__name__, [repr(a) for a in o.args]]
+                  for o in again][:6])
+            return
+        res.stats['constructor_calls_checked'] += len(specs)
+        olds = {}
+        left = list(first_objects)
+        for i, spec in enumerate(specs):
+            for obj in left:
+                if type(obj) is resolve(spec['type']) and len(obj.args) == \
+                        len(spec.get('args', [])):
+                    olds[i] = obj
+                    left.remove(obj)
+                    break
+        for i, obj in second.items():
+            old = olds.get(i)
+            if old is None:
+                continue
             for a, b in zip(obj.args, old.args):
                 if isinstance(a, (list, dict)) and a is b \
                         and not str(a).startswith("['loaded'"):
